@@ -218,8 +218,8 @@ func numAfter(s StrV, prefix string) (*Term, bool) {
 	ps := s.parts()
 	for i, p := range ps {
 		if p.Num == nil || (p.Kind != "dec" && p.Kind != "udec") {
-			// a fully concrete string: parse the digits after prefix
-			if p.Num == nil && !p.Lit.Sym && s.Parts == nil {
+			// a concrete literal: parse the digits after prefix
+			if p.Num == nil && !p.Lit.Sym && prefix != "" {
 				j := strings.Index(p.Lit.C, prefix)
 				if j < 0 {
 					continue
